@@ -51,10 +51,13 @@ package biscuit
 //@ modifies nothing
 //@ loop 0 invariant forall j int :: { blocks[j] } 0 <= j && j < #i ==> blocks[j] != nil && fresh(blocks[j]) && wfBlock(blocks[j])
 //@ loop 0 invariant len(blocks) == len(b.blocks) + 1 && fresh(arr(blocks)) && fresh(authority) && wfBlock(authority)
+//@ loop 0 invariant content: *authority == *b.authority && (forall j int :: { blocks[j] } 0 <= j && j < #i ==> *blocks[j] == *b.blocks[j])
 //@ ensures no_token_on_error: err != nil ==> res == nil
 //@ ensures refuses_sealed: !hasNextSecret(b.container.Proof) ==> err != nil
 //@ ensures wf_blocks: err == nil ==> res != nil && wfBlock(res.authority) && res.symbols != nil && len(res.blocks) == len(b.blocks) + 1 && (forall i int :: { res.blocks[i] } 0 <= i && i < len(res.blocks) ==> wfBlock(res.blocks[i]))
 //@ ensures wf_envelope: err == nil ==> wfContainer(res.container) && len(res.blocks) == len(res.container.Blocks)
+//@ ensures content_same[C09]: err == nil ==> *res.authority == *b.authority && (forall i int :: { res.blocks[i] } 0 <= i && i < len(b.blocks) ==> *res.blocks[i] == *b.blocks[i]) && res.blocks[len(b.blocks)] == block
+//@ ensures content_kept: err == nil && contentWF(b) ==> contentWF(res)
 //@ ensures keyid[C16]: err == nil ==> optEq(res.container.RootKeyId, b.container.RootKeyId)
 //@ ensures envelope_prefix: err == nil ==> res.container.Authority == b.container.Authority && len(res.container.Blocks) == len(b.container.Blocks) + 1 && (forall i int :: { res.container.Blocks[i] } 0 <= i && i < len(b.container.Blocks) ==> res.container.Blocks[i] == b.container.Blocks[i])
 //@ ensures next_key: err == nil ==> hasNextSecret(res.container.Proof) && len(nextSecret(res.container.Proof)) == 32 && len(res.container.Blocks[len(b.container.Blocks)].NextKey.Key) == 32 && bview(res.container.Blocks[len(b.container.Blocks)].NextKey.Key) == pubOfPriv(privOfSeed(bview(nextSecret(res.container.Proof))))
@@ -70,6 +73,7 @@ package biscuit
 //@ ensures no_token_on_error: err != nil ==> res == nil
 //@ ensures refuses_sealed: !hasNextSecret(b.container.Proof) ==> err != nil
 //@ ensures wf: err == nil ==> wfToken(res) && len(res.blocks) == len(b.blocks)
+//@ ensures content_kept: err == nil && contentWF(b) ==> contentWF(res)
 //@ ensures keyid[C16]: err == nil ==> optEq(res.container.RootKeyId, b.container.RootKeyId)
 //@ ensures envelope_same: err == nil ==> res.container.Authority == b.container.Authority && len(res.container.Blocks) == len(b.container.Blocks) && (forall i int :: { res.container.Blocks[i] } 0 <= i && i < len(b.container.Blocks) ==> res.container.Blocks[i] == b.container.Blocks[i])
 //@ ensures sealed: err == nil ==> hasFinalSig(res.container.Proof) && !hasNextSecret(res.container.Proof)
@@ -170,17 +174,21 @@ package biscuit
 //@ ensures chain_implies_accept[C01 C09]: chainOK(b.container, bview(root)) && proofOK(b.container) ==> err == nil && res != nil
 //@ ensures passes_options[C11]: err == nil ==> limitsOf(res) == optLimits(opts)
 //@ ensures wf: err == nil ==> res is *authorizer && authWF(res.(*authorizer)) && res.(*authorizer).biscuit == b
+//@ ensures ready: err == nil && contentWF(b) ==> authInv(res.(*authorizer))
 
 //@ func NewVerifier(b *Biscuit, opts []AuthorizerOption) (res Authorizer, err error)
 //@ serves C01 C10 C11 C13
 //@ requires forall j int :: { opts[j] } 0 <= j && j < len(opts) ==> opts[j] != nil
 //@ modifies nothing
 //@ loop 0 invariant a != nil && fresh(a) && a.baseSymbols != nil && a.baseWorld != nil && a.baseWorld.facts != nil && a.biscuit == b
-//@ loop 0 invariant len(*a.baseWorld.facts) == 0 && len(a.baseWorld.rules) == 0 && len(a.checks) == 0 && len(a.policies) == 0 && !a.dirty
+//@ loop 0 invariant len(*a.baseWorld.facts) == 0 && cap(*a.baseWorld.facts) == 0 && len(a.baseWorld.rules) == 0 && len(a.checks) == 0 && len(a.policies) == 0 && !a.dirty
 //@ loop 0 invariant a.baseWorld.runLimits == aoFold(inner(opts), off(opts), #i, datalog.defaultRunLimits)
 //@ ensures err == nil && res != nil
 //@ ensures applies_all_options[C11]: limitsOf(res) == optLimits(opts) && res.(*authorizer).baseWorld.runLimits == optLimits(opts)
 //@ ensures wf: res is *authorizer && authWF(res.(*authorizer)) && res.(*authorizer).biscuit == b && len(res.(*authorizer).checks) == 0 && len(res.(*authorizer).policies) == 0 && !res.(*authorizer).dirty
+//@ ensures ready_content: contentWF(b) ==> contentWF(res.(*authorizer).biscuit)
+//@ ensures ready_facts: contentWF(b) ==> factsApart(res.(*authorizer))
+//@ ensures ready_rules: contentWF(b) ==> rulesApart(res.(*authorizer))
 
 // Options are functions over the unexported *authorizer: only this package can
 // define them, and each one is verified against this contract.
@@ -189,7 +197,7 @@ package biscuit
 //@ requires w != nil && w.baseSymbols != nil
 //@ modifies w.baseWorld
 //@ touches cell:datalog.World cell:datalog.FactSet arr:[]datalog.Rule arr:datalog.FactSet
-//@ ensures w.baseWorld != nil && w.baseWorld.facts != nil && len(*w.baseWorld.facts) == 0 && len(w.baseWorld.rules) == 0 && fresh(w.baseWorld)
+//@ ensures w.baseWorld != nil && w.baseWorld.facts != nil && len(*w.baseWorld.facts) == 0 && cap(*w.baseWorld.facts) == 0 && len(w.baseWorld.rules) == 0 && fresh(w.baseWorld)
 //@ defines w.baseWorld.runLimits == aoApply(self, old(w.baseWorld.runLimits))
 
 //@ func WithWorldOptions$1(a *authorizer)
@@ -323,6 +331,7 @@ package biscuit
 //@ ensures uses_selected_key[C01 C16]: err == nil ==> keySource != nil && chainOK(b.container, bview(ksKey(keySource, b.container.RootKeyId))) && proofOK(b.container)
 //@ ensures passes_options[C11]: err == nil ==> limitsOf(res) == optLimits(opts)
 //@ ensures wf: err == nil ==> res is *authorizer && authWF(res.(*authorizer)) && res.(*authorizer).biscuit == b
+//@ ensures ready: err == nil && contentWF(b) ==> authInv(res.(*authorizer))
 //@ ensures accepts_under_selected_key[C01 C16]: keySource != nil && ksErr(keySource, b.container.RootKeyId) == 0 && len(ksKey(keySource, b.container.RootKeyId)) == 32 && chainOK(b.container, bview(ksKey(keySource, b.container.RootKeyId))) && proofOK(b.container) ==> err == nil
 
 //@ func (b *Biscuit) Authorizer(root ed25519.PublicKey, opts []AuthorizerOption) (res Authorizer, err error)
@@ -334,6 +343,7 @@ package biscuit
 //@ ensures accept_iff_chain[C01]: (err == nil) == (chainOK(b.container, bview(root)) && proofOK(b.container))
 //@ ensures passes_options[C11]: err == nil ==> limitsOf(res) == optLimits(opts)
 //@ ensures wf: err == nil ==> res is *authorizer && authWF(res.(*authorizer)) && res.(*authorizer).biscuit == b
+//@ ensures ready: err == nil && contentWF(b) ==> authInv(res.(*authorizer))
 
 // ---------------------------------------------------------------------------
 // builder-level values to datalog values and back (types.go): C07 C10 C14
@@ -542,24 +552,28 @@ package biscuit
 //@ requires authWF(v) && bPredWF(fact.Predicate)
 //@ modifies *v.world.facts, spare(*v.world.facts), *v.symbols, spare(*v.symbols)
 //@ ensures authWF(v)
+//@ ensures keeps_inv: old(authInv(v)) ==> authInv(v)
 
 //@ func (v *authorizer) AddRule(rule Rule)
 //@ serves C10 C13
 //@ requires authWF(v) && bRuleWF(rule)
 //@ modifies v.world.rules, spare(v.world.rules), *v.symbols, spare(*v.symbols)
 //@ ensures authWF(v)
+//@ ensures keeps_inv: old(authInv(v)) ==> authInv(v)
 
 //@ func (v *authorizer) AddCheck(check Check)
 //@ serves C10 C13
 //@ requires authWF(v) && bCheckWF(check)
 //@ modifies v.checks, spare(v.checks)
 //@ ensures authWF(v) && len(v.checks) == old(len(v.checks)) + 1
+//@ ensures keeps_inv: old(authInv(v)) ==> authInv(v)
 
 //@ func (v *authorizer) AddPolicy(policy Policy)
 //@ serves C10 C13
 //@ requires authWF(v) && bPolicyWF(policy)
 //@ modifies v.policies, spare(v.policies)
 //@ ensures authWF(v) && len(v.policies) == old(len(v.policies)) + 1
+//@ ensures keeps_inv: old(authInv(v)) ==> authInv(v)
 
 //@ func (v *authorizer) Reset()
 //@ serves C10 C13
